@@ -416,6 +416,27 @@ class Body:
                 if s["k"] == "assign" and (pred is None or pred(s)):
                     yield bb, i, s
 
+    def moves_of(self, local):
+        """Blocks in which the whole local is moved out (operand `move _local`) or dropped."""
+        out = set()
+        want = ["m", [local]]
+        for bb, blk in enumerate(self.blocks):
+            if blk.get("cleanup") or bb not in self.reachable:
+                continue
+            for s in blk["s"]:
+                if s["k"] != "assign":
+                    continue
+                rv = s["rv"]
+                ops = [rv.get("o"), rv.get("a"), rv.get("b")] + list(rv.get("ops", []))
+                if any(o == want for o in ops if o):
+                    out.add(bb)
+            t = blk["t"]
+            if t["t"] == "call" and any(a == want for a in t["a"]):
+                out.add(bb)
+            if t["t"] == "drop" and t["p"] == [local]:
+                out.add(bb)
+        return out
+
     def field_stores(self, field):
         """Assignments whose destination place ends in field `field` (any base)."""
         for bb, i, s in self.assigns():
@@ -878,6 +899,14 @@ class Facts:
                             dp = cur.stmts(o.detail[0])[o.detail[1]]["rv"].get("dp")
                             nxt = self.by_dp.get((cur.crate, dp))
             if nxt is None:
+                # `#[instrument(ret/err)]` adds one more layer: `let r = async move { body }.await; log(r); r`
+                kids2 = [k for k in self.children.get((cur.crate, cur.dp), []) if k.kind == "coroutine"]
+                aw = cur.awaits()
+                if len(kids2) == 1 and aw and all(strip_generics(kids2[0].path) in strip_generics(a.get("fut_fn") or "")
+                                                  for a in aw):
+                    nxt = kids2[0]
+                    cur = nxt
+                    continue
                 break
             # only a pure wrapper is looked through: it awaits nothing but the instrumented block
             pure = True
